@@ -13,6 +13,7 @@ import TsRsVerif.Model.TsNorm
 import TsRsVerif.Model.TsWitness
 import TsRsVerif.Model.Attr
 import TsRsVerif.Model.Validity
+import TsRsVerif.Model.Comment
 open Lean TsRs
 
 def gs (j : Json) (k : String) : Str :=
@@ -293,6 +294,16 @@ def handle (ops : CharOps) (j : Json) : Json :=
     match Validity.derive (gb j "serde_compat") (aItem j) with
     | .ok => Json.mkObj [("ok", Json.bool true)]
     | .error m => Json.mkObj [("err", Json.str m)]
+  | "parse_docs" =>
+    let out := Derive.parseDocs (gsl j "docs")
+    let sentinel := gs j "sentinel"
+    let lead := Comment.leadingComment (out ++ sentinel)
+    Json.mkObj [("out", Json.str (String.ofList out)),
+      ("inert", Json.bool (Comment.run .code (out ++ sentinel) == Comment.run .code sentinel)),
+      ("body", match lead with | some (b, _) => Json.str (String.ofList b) | none => Json.null),
+      ("rest", match lead with | some (_, r) => Json.str (String.ofList r) | none => Json.null)]
+  | "sig" => Json.mkObj [("sig", Json.str (String.ofList (Comment.sig .code (gs j "text")))),
+                         ("end_code", Json.bool (Comment.endState .code (gs j "text") == .code))]
   | "oracle_c07" =>
     -- generic declaration vs concrete declaration of one instantiation
     let others : Decls := (gsl j "decls").filterMap fun d => (TsParse.parseDecl d).map fun (n, ps, body) => (n, ps, TsParse.bindParams ps body)
